@@ -7,6 +7,7 @@ import (
 	"strconv"
 
 	"github.com/stackus/goht"
+	"github.com/stackus/goht/internal/proxy"
 )
 
 // number of repetitions used to sample Go's randomised map iteration order
@@ -143,5 +144,20 @@ func init() {
 	}
 	handlers["escape"] = func(args []string) string {
 		return "ok " + tohex(goht.EscapeString(unhex(args[0])))
+	}
+}
+
+func init() {
+	// addimport <pkg> <line>... ; detailpkg <detail>
+	handlers["addimport"] = func(args []string) string {
+		lines := []string{}
+		for _, a := range args[1:] {
+			lines = append(lines, unhex(a))
+		}
+		n, text := proxy.VerifAddImport(lines, unhex(args[0]))
+		return "ok " + strconv.Itoa(n) + " " + tohex(text)
+	}
+	handlers["detailpkg"] = func(args []string) string {
+		return "ok " + tohex(proxy.VerifDetailPackage(unhex(args[0])))
 	}
 }
